@@ -49,7 +49,7 @@ def register_build_op(reg: Registry) -> None:
                 "MacroSourceMapping.relpath_included_file": "str | None", "MacroSourceMapping.macro_name": "str", "MacroSourceMapping.called_in": "tuple[str | None, int, int] | None",
                 "SourceMapping.line": "int", "SourceMapping.column": "int",
                 "SourceMapBuilder._mappings_macros": "dict[int, MacroSourceMapping]", "SourceMapBuilder._macro_context__stack": "list[tuple[int, Any]]",
-                "SourceMapBuilder._next_macro_called_in": "Any", "SsbOperation.offset": "int", "SsbOperation.params": "list[Any]", "SsbOperation.op_code": "SsbOpCode"})
+                "SsbOperation.offset": "int", "SsbOperation.params": "list[Any]", "SsbOperation.op_code": "SsbOpCode"})
     reg.contract(SMM + ":SourceMap.get_op_line_and_col__macros", types={"self": "SourceMap", "op_offset": "int"}, returns="MacroSourceMapping | None",
                  ensures=["result is ite(op_offset in self._mappings_macros, self._mappings_macros[op_offset], None)"], modifies=[], properties=["C08"],
                  canaries=["is_none(result)"])
